@@ -72,6 +72,9 @@ FAMILY = [
     ("default_marker", None, "MY", '<p tal:content="m">dflt</p>', "PageTemplate", "PageTemplate"),
     # the table of expression compilers (python: handled as a string)
     ("expression_types", None, "PY_AS_STRING", '<p tal:content="name">x</p> ${name}', "PageTemplate", "PageTemplate"),
+    # ... with entries that are functools.partial objects differing in the
+    # order of their positional arguments / in one keyword value
+    ("expression_types_partial", "QUOTE:(:)", "QUOTE:):(", '<p tal:content="quote:name">x</p>', "PageTemplate", "PageTemplate"),
     # not an option at all: the names the process had in ``builtins`` when
     # it imported chameleon (gettext.install() in one of two applications
     # sharing the directory) decide how a free name is compiled
@@ -100,6 +103,7 @@ FAMILY += [("body_near", a, b, None, "PageTemplate", "PageTemplate")
            for a, b in NEAR_BODIES]
 FAMILY_BY_NAME = {f[0]: f for f in FAMILY}
 OPTION_OF = {
+    "expression_types_partial": "expression_types",
     "extra_builtins_value": "extra_builtins",
     "extra_builtins_more": "extra_builtins",
     "boolean_attributes_unset_vs_empty": "boolean_attributes",
@@ -163,6 +167,27 @@ def outcome_of_exc(e: BaseException) -> list:
     except Exception as e2:     # noqa: BLE001
         msg = f"<str failed: {type(e2).__name__}>"
     return ["exc", type(e).__name__, norm_msg(msg)]
+
+
+class QuoteExpr:
+    """``quote:expr`` - the value of ``expr`` between two marks; used as
+    ``functools.partial(QuoteExpr, opening, closing)`` in a table of
+    expression types."""
+
+    def __init__(self, opening, closing, expression):
+        self.opening = opening
+        self.closing = closing
+        self.expression = expression
+
+    def __call__(self, target, engine):
+        import ast
+        from chameleon.codegen import template
+        compiler = engine.parse(self.expression)
+        body = compiler.assign_value(target)
+        return body + template(
+            "target = opening + str(target) + closing", target=target,
+            opening=ast.Constant(self.opening),
+            closing=ast.Constant(self.closing))
 
 
 def _verif_gb(s):
@@ -234,6 +259,12 @@ class C15(CheckBase):
             if k == "tokenizer" and v == "iter_text":
                 from chameleon.tokenize import iter_text
                 v = iter_text
+            if k == "expression_types" and isinstance(v, str) and \
+                    v.startswith("QUOTE:"):
+                from functools import partial
+                _, a_, b_ = v.split(":")
+                v = dict(self.zt.PageTemplate.expression_types,
+                         quote=partial(QuoteExpr, a_, b_))
             if k == "expression_types" and v == "PY_AS_STRING":
                 from chameleon.tales import StringExpr
                 v = dict(self.zt.PageTemplate.expression_types,
